@@ -95,7 +95,13 @@ impl TwoFloat {
     /// assert!((b - c).abs() < 1e-10);
     /// ```
     pub fn asinh(self) -> Self {
-        (self + (self * self + 1.0).sqrt()).ln()
+        let x = self.abs();
+        let result = (x + (x * x + 1.0).sqrt()).ln();
+        if self.is_sign_positive() {
+            result
+        } else {
+            -result
+        }
     }
 
     /// Inverse hyperbolic tangent function.
